@@ -35,8 +35,10 @@ CHECKS = {
             "of the generated message types judged by TLC against Used/KeptWheres",
             "TLA+ spec + TLC (exhaustive small scope), in-process expansion, trace validation"),
     "C17": ("static", "6 C17", "all ordered pairs of forwarding sites (type of a kind, handler variant, handler argument) with distinguishable marker "
-            "attributes for contracts and interfaces; occurrences of each marker judged by TLC",
-            "TLA+ spec + TLC (exhaustive small scope), in-process expansion, trace validation"),
+            "attributes (plain, and wrapped in cfg_attr on arguments) for contracts and interfaces; occurrences of each marker judged by TLC; effect: "
+            "program A1 of the compiled routing corpus (arguments with a forwarded serde(default)): documents leaving them out are accepted through "
+            "both paths and the handler is handed the default",
+            "TLA+ spec + TLC (exhaustive small scope), in-process expansion, compiled corpus, trace validation"),
     "C07": ("reply", "6 C07", "ReplyRT.tla (build -> outcome -> dispatch) model-checked over the compiled reply tables; every reply "
             "(handler incl. unknown id x outcome x events x data class) dispatched by the real sv::dispatch_reply, reply entry point and multitest impl; "
             "routing, context, second parameter and pass-through arms judged by TLC (Trace_Reply)",
